@@ -11,6 +11,9 @@ CONSTANTS
   SidecarNextSeq = TRUE
   LineageLocked = TRUE
   SecondInput = FALSE
+  Tasks = {"k1"}
+  TaskGuarded = TRUE
+  Cold = FALSE
   Guarded = TRUE
 INVARIANTS TypeOK GapFree AckedOnce MutexHeld
 PROPERTY AppendOnly
